@@ -130,6 +130,7 @@ def r015(eng, rep, dec_disp: FuncInfo, pr: Prims) -> None:
         rep.undecided("R01.5", dec_disp.file, dec_disp.qual, "SignedType branch", "handler not found")
         return
     defs = Defs(h.node)
+    ROLE = "decode handler of SignedType"
 
     def resolve(e, depth=0):
         if isinstance(e, ast.Name) and depth < 3:
@@ -168,6 +169,25 @@ def r015(eng, rep, dec_disp: FuncInfo, pr: Prims) -> None:
             return x is not None and is_length(x)
         return None
 
+    import copy as _copy
+
+    class _Deep(ast.NodeTransformer):
+        def __init__(self):
+            self.depth = 0
+
+        def visit_Name(self, n):
+            if isinstance(n.ctx, ast.Load) and self.depth < 4:
+                vs = [v for k, v, st in defs.values(n.id) if k == "assign" and v is not None]
+                if len(vs) == 1:
+                    self.depth += 1
+                    r = self.visit(_copy.deepcopy(vs[0]))
+                    self.depth -= 1
+                    return r
+            return n
+
+    def deep(e):
+        return _Deep().visit(_copy.deepcopy(e))
+
     found = False
     for n in walk_local(h.node):
         test = None
@@ -191,28 +211,41 @@ def r015(eng, rep, dec_disp: FuncInfo, pr: Prims) -> None:
             l, op, r = test.left, test.ops[0], test.comparators[0]
             hl, hr = half(l), half(r)
             if hr is True or hl is True:
+                # the construct is named by what its operands denote, not by the local names used
+                site = canon_threshold(test, hl is True, deep)
                 if hl is True:  # T op word  ->  word op' T
                     op = {ast.Gt: ast.Lt, ast.GtE: ast.LtE, ast.Lt: ast.Gt, ast.LtE: ast.GtE}.get(type(op), type(op))()
                 # truth on (word < T, word == T, word > T)
                 tt = {ast.Gt: (False, False, True), ast.GtE: (False, True, True), ast.Lt: (True, False, False), ast.LtE: (True, True, False)}.get(type(op))
                 if tt is None:
-                    rep.undecided("R01.5", h.file, h.qual, site, "comparator not an ordering")
+                    rep.undecided("R01.5", h.file, ROLE, site, "comparator not an ordering")
                     continue
                 neg_taken = tt if neg_in_body else tuple(not x for x in tt)
                 want = (False, True, True)
                 if neg_taken == want:
-                    rep.ok("R01.5", h.file, h.qual, site, "negative branch taken exactly for word >= 2^(N-1)")
+                    rep.ok("R01.5", h.file, ROLE, site, "negative branch taken exactly for word >= 2^(N-1)")
                 else:
                     where = "word == 2^(N-1)" if neg_taken[1] != want[1] else "word %s 2^(N-1)" % ("<" if neg_taken[0] != want[0] else ">")
-                    rep.violation("R01.5", h.file, h.qual, site, "sign reconstruction misclassifies %s: the most negative value -2^(N-1) decodes as +2^(N-1)" % where if neg_taken[1] != want[1] else "sign reconstruction misclassifies %s" % where)
+                    rep.violation("R01.5", h.file, ROLE, site, "sign reconstruction misclassifies %s: the most negative value -2^(N-1) decodes as +2^(N-1)" % where if neg_taken[1] != want[1] else "sign reconstruction misclassifies %s" % where)
             else:
-                rep.undecided("R01.5", h.file, h.qual, site, "threshold not recognised as 2^(N-1)")
+                rep.undecided("R01.5", h.file, ROLE, site, "threshold not recognised as 2^(N-1)")
         elif isinstance(test, ast.BinOp) and isinstance(test.op, (ast.BitAnd, ast.RShift)):
-            rep.ok("R01.5", h.file, h.qual, site, "sign bit test") if ("- 1" in norm(test) and neg_in_body) else rep.undecided("R01.5", h.file, h.qual, site, "bit test form not recognised")
+            rep.ok("R01.5", h.file, ROLE, site, "sign bit test") if ("- 1" in norm(test) and neg_in_body) else rep.undecided("R01.5", h.file, ROLE, site, "bit test form not recognised")
         else:
-            rep.undecided("R01.5", h.file, h.qual, site, "sign test form not recognised")
+            rep.undecided("R01.5", h.file, ROLE, site, "sign test form not recognised")
     if not found:
-        rep.undecided("R01.5", h.file, h.qual, "sign reconstruction", "no branch subtracting 2^N found")
+        rep.undecided("R01.5", h.file, ROLE, "sign reconstruction", "no branch subtracting 2^N found")
+
+
+def canon_threshold(test: ast.Compare, threshold_left: bool, deep) -> str:
+    """`word > max / 2` with max = 2 ** type.get_length()  ->  'word > 2 ** N / 2' whatever the locals are called"""
+    import re as _re
+    ops = {ast.Gt: ">", ast.GtE: ">=", ast.Lt: "<", ast.LtE: "<=", ast.Eq: "==", ast.NotEq: "!="}
+    thr = test.left if threshold_left else test.comparators[0]
+    t = norm(deep(thr), 120)
+    t = _re.sub(r"[A-Za-z_][\w\.]*\.get_length\(\)", "N", t)
+    op = ops.get(type(test.ops[0]), "?")
+    return ("%s %s word" % (t, op)) if threshold_left else ("word %s %s" % (op, t))
 
 
 def r017(eng, rep) -> None:
